@@ -21,7 +21,9 @@ import numpy as np
 
 from tjverif import gen, oracle, recgen, session
 
-VEL = ["km/s", "m/s", "cm/s", "pc/Myr"]
+# composite and scaled units too: km/h, AU/yr and a prefixed "100 m/s" are all legal astropy velocity units
+VEL = ["km/s", "m/s", "cm/s", "pc/Myr", "km/h", "AU/yr", "100 m/s"]
+TIME = ["d", "yr", "h", "min", "wk"]
 
 
 def other(rng, cur, pool):
@@ -77,18 +79,18 @@ def transform(rng, pb):
             o["mu"], o["sigma"], o["unit"] = o["mu"] * f, o["sigma"] * f, nu
         what.add("offsets")
     if "Punit" in chosen:
-        nu = other(rng, p2["P_unit"], ["d", "yr", "h"])
+        nu = other(rng, p2["P_unit"], TIME)
         p2["P_min"] = gen.conv(p2["P_min"], p2["P_unit"], nu)
         p2["P_max"] = gen.conv(p2["P_max"], p2["P_unit"], nu)
         p2["P_unit"] = nu
         what.add("Punit")
     if "P0" in chosen and K["kind"] == "default":
-        nu = other(rng, K["P0_unit"], ["d", "yr", "h"])
+        nu = other(rng, K["P0_unit"], TIME)
         K["P0"] = gen.conv(K["P0"], K["P0_unit"], nu)
         K["P0_unit"] = nu
         what.add("P0")
     if "libP" in chosen:
-        lib_units["P"] = str(rng.choice(["yr", "h"]))
+        lib_units["P"] = str(rng.choice(["yr", "h", "min", "wk"]))
         what.add("libP")
     if "libangles" in chosen:
         lib_units["omega"] = "deg"
@@ -101,6 +103,53 @@ def transform(rng, pb):
         lib_units["P"] = "yr"
         what.add("libP")
     return d2, p2, lib_units, what, f_data
+
+
+def mcmc_twin(ctx, rng, pb, jb, jt, data2, prior2, p2, d2, f_data, n_ep, wdesc, cls):
+    from tjverif import mcmc
+    n_off = pb.ps["n_offsets"]
+    from thejoker import TheJoker
+    # own sampler objects: the generators of jb / jt must stay in step for the equal-seed comparisons that follow
+    jb = TheJoker(pb.prior, rng=np.random.default_rng(5), tempfile_path=ctx.tmpdir)
+    jt = TheJoker(prior2, rng=np.random.default_rng(5), tempfile_path=ctx.tmpdir)
+    post_b = jb.rejection_sample(pb.data, pb.lib, in_memory=True, max_posterior_samples=1)
+    post_t = jt.rejection_sample(data2, gen.build_samples(pb.rows, units={"s": d2["unit"]}), in_memory=True, max_posterior_samples=1)
+    with pb.prior.model:
+        jb.setup_mcmc(pb.data, post_b)
+    with prior2.model:
+        jt.setup_mcmc(data2, post_t)
+    fb, vb = mcmc.compile_model(pb.prior.model)
+    ft, vt = mcmc.compile_model(prior2.model)
+    lin = pb.lin
+    du, du2 = pb.du, d2["unit"]
+    for _ in range(3):
+        P_d = float(np.exp(rng.uniform(np.log(gen.conv(pb.ps["P_min"], pb.ps["P_unit"], "d")) + 1e-6,
+                                       np.log(gen.conv(pb.ps["P_max"], pb.ps["P_unit"], "d")) - 1e-6)))
+        e_ = float(rng.uniform(0.01, 0.6))
+        om, M0 = float(rng.uniform(-3.1, 3.1)), float(rng.uniform(-3.1, 3.1))
+        s_du = float(10 ** rng.uniform(-2, 0)) * gen.conv(1, "km/s", du)
+        x = lin.mu + rng.normal(size=lin.L) * np.sqrt(np.concatenate([[lin.var_K(P_d, e_)], lin.lam_rest])) * 0.7
+        ob = mcmc.evaluate(fb, vb, pb.ps, du, n_off, (P_d, e_, om, M0, s_du), x)
+        ot = mcmc.evaluate(ft, vt, p2, du2, n_off, (P_d, e_, om, M0, s_du * f_data), x * f_data)
+        if ob is None or ot is None:
+            ctx.count("mcmc_twins_unmapped")
+            return
+        ctx.evaluations += 1
+        ctx.count("mcmc_twin_points")
+        ctx.distinct.add(repr(("mcmc-twin",) + cls))
+        rv_b, ll_b_ = ob
+        rv_t, ll_t_ = ot
+        scale = np.max(np.abs(rv_b)) + abs(x[0]) + 1e-9
+        if np.max(np.abs(rv_t / f_data - rv_b)) > 1e-6 * scale:
+            ctx.violation("mcmc-model-not-unit-invariant", "model_rv of the twin, converted back, differs from the base model by %.3g "
+                          "(scale %.3g) after re-expressing %s" % (np.max(np.abs(rv_t / f_data - rv_b)), scale, wdesc["transformed"]), wdesc)
+            return
+        want = float(ll_b_) - n_ep * np.log(f_data)
+        if abs(float(ll_t_) - want) > 1e-6 * (1 + abs(want)):
+            ctx.violation("mcmc-model-not-unit-invariant", "ln_likelihood of the MCMC model: twin %.10g, base - n ln(ratio) = %.10g after "
+                          "re-expressing %s (data %s with errors in %s)" % (float(ll_t_), want, wdesc["transformed"], du,
+                                                                            [s_.get("err_unit") for s_ in pb.dspec["surveys"]]), wdesc)
+            return
 
 
 def run(ctx):
@@ -186,6 +235,10 @@ def run(ctx):
                                   dict(wdesc, row=r, P_day=float(pb.tagP[r]), e=float(pb.rows["e"][r])))
                     continue
                 ctx.maxi("dev_over_tol", float(np.max(np.where(ok, dev / tol, 0))))
+                # the MCMC continuation of the same two problems: at one physical point the data term of the model built by
+                # setup_mcmc differs by exactly the same Jacobian, and the RV curves are the same curve in two units
+                if tw == 0 and i % 2 == 0:
+                    mcmc_twin(ctx, rng, pb, jb, jt, data2, prior2, p2, d2, f_data, n_ep, wdesc, cls)
                 # accepted set and posterior values
                 out_t = jt.rejection_sample(data2, lib2, in_memory=in_memory)
                 if margin < 1e-7:
